@@ -19,7 +19,9 @@ COMMON_ASSUMPTIONS = [
     "sequentially consistent memory: Ordering arguments are ignored by the encoding (CBMC/Kani model atomics as "
     "sequential); C11 weak-memory stale reads are outside every claim",
     "stubs (Kani -Z stubbing): iceoryx2_log::__internal_print_log_msg -> no-op, alloc::fmt::format -> empty String, "
-    "iceoryx2_bb_container::string::as_escaped_string -> empty String (log text is not part of any property)",
+    "iceoryx2_bb_container::string::as_escaped_string -> empty String (log text is not part of any property); "
+    "core::str::from_utf8 -> reference UTF-8 validator common::utf8_model (verdict validated natively against the real "
+    "function on 1.19e9 strings by bin/validate_utf8_model during setup; the error payload is not modelled)",
     "heap allocation never fails (Kani default)",
     "Kani 0.68 / CBMC 6.11 / rustc (Kani's pinned nightly) are trusted; dev-profile semantics (overflow checks and "
     "debug assertions on)",
